@@ -1,4 +1,4 @@
 SPECIFICATION Spec
 CONSTANT KSet <- KEnv
-INVARIANTS RankBound Final Conforms
+INVARIANTS RankBound Final Conforms HeaderConforms
 CHECK_DEADLOCK FALSE
